@@ -138,8 +138,8 @@ async fn run_script(cfg: &HCfg, script: &[HOp], locs: &BTreeMap<u64, Loc>) -> Re
                     }
                 }
             }
-            HOp::EvictMem => {
-                class = format!("evict:{}", if woi { "woi" } else { "woe" });
+            HOp::EvictMem | HOp::ShrinkMem => {
+                class = format!("{}:{}{}", if matches!(op, HOp::ShrinkMem) { "resize-evict" } else { "evict" }, if woi { "woi" } else { "woe" }, if cfg.no_listener { ":no-listener" } else { "" });
                 if !woi {
                     for v in mem.values() {
                         if v.loc != Loc::InMem && v.admitted && !v.from_disk {
@@ -303,6 +303,7 @@ fn gen_case(rng: &mut Rng, i: usize) -> (HCfg, Vec<HOp>, BTreeMap<u64, Loc>) {
     cfg.admit_reject_mod = if rng.chance(1, 3) { 3 } else { 0 };
     cfg.admit_throttle_mod = if rng.chance(1, 3) { 4 } else { 0 };
     cfg.tombstone = rng.chance(1, 2);
+    cfg.no_listener = rng.chance(1, 3);
     let keys: Vec<u64> = (0..5).collect();
     let mut locs = BTreeMap::new();
     for k in &keys {
@@ -323,7 +324,8 @@ fn gen_case(rng: &mut Rng, i: usize) -> (HCfg, Vec<HOp>, BTreeMap<u64, Loc>) {
                     HOp::Get { k }
                 }
             }
-            70..=84 => HOp::EvictMem,
+            70..=79 => HOp::EvictMem,
+            80..=84 => HOp::ShrinkMem,
             85..=91 => HOp::Remove { k },
             _ => HOp::CloseReopen,
         });
